@@ -3,7 +3,7 @@ import BppProofs.Lemmas.DistGuards
 # C08 — cumulative and quantile functions   (src/Bpp/Numeric/Random/RandomTools.{h,cpp})
 -/
 namespace Bpp.C08
-open Bpp Bpp.Scalar Bpp.PNorm
+open Bpp Bpp.Scalar Bpp.PNorm Bpp.DistGuards
 
 /-- outside the cut-offs `pNorm` is exactly 0 / 1, for every `exp` and `trunc` -/
 theorem pnorm_ends (ex tr : ℝ → ℝ) (x : ℝ) :
@@ -87,6 +87,19 @@ theorem pnorm_reflect_gap (ex tr : ℝ → ℝ) (htr : ∀ z, tr (-z) = -tr z) (
   rw [pNorm_real, abs_neg]
   simp only [c1, c2, r, and_self, if_true, if_false, far_real, c4, farTail_neg ex tr htr]
 
+/-- … and with the real exponential the lower value is strictly positive there, so reflection
+is *not* an identity of the code between the cut-offs (it holds to within the lower tail). -/
+theorem pnorm_reflect_fails_in_gap (x : ℝ) (h1 : upCut ≤ x) (h2 : x < lowCut) :
+    pNorm Real.exp truncR (-x) ≠ 1 - pNorm Real.exp truncR x := by
+  obtain ⟨e1, e2⟩ := pnorm_reflect_gap Real.exp truncR truncR_odd x h1 h2
+  rw [e1, e2, sub_self]
+  have h5 := five_le_cut2
+  have h2u := cut2_lt_upCut
+  have hx : 5 ≤ |x| := by rw [abs_of_pos (by linarith)]; linarith
+  have ht := (tailTemp_bd hx).1
+  simp only [farTail]
+  exact ne_of_gt (mul_pos (mul_pos (Real.exp_pos _) (Real.exp_pos _)) ht)
+
 /-- **Range.**  `0 ≤ pNorm x ≤ 1` for every `x`, in exact arithmetic, for every `exp` with values in
 `[0,1]` on the non-positive axis and every odd `trunc` with `0 ≤ trunc z ≤ z` on `z ≥ 0`
 (`ExpTrunc`; `Real.exp` and the mathematical `trunc` qualify: `expTrunc_real`). -/
@@ -115,5 +128,218 @@ theorem pnorm_range (ex tr : ℝ → ℝ) (H : ExpTrunc ex tr) (x : ℝ) :
 /-- the hypotheses of `pnorm_range` are satisfiable: the real exponential and truncation -/
 example (x : ℝ) : 0 ≤ pNorm Real.exp truncR x ∧ pNorm Real.exp truncR x ≤ 1 :=
   pnorm_range _ _ expTrunc_real x
+
+/-! ## Decision tables of the argument checks (`guards_total_*`) -/
+
+/-- `incompleteGamma(x, α, ·)`: 0 at `x = 0` (whatever `α`), the error value -1 iff
+`x ≠ 0 ∧ (x < 0 ∨ α ≤ 0)`, the kernel otherwise. -/
+theorem guards_total_incompleteGamma (K : Kernels ℝ) (x a g : ℝ) :
+    (x = 0 → incompleteGamma K x a g = 0) ∧
+    (igSentinel x a = true → incompleteGamma K x a g = -1) ∧
+    (0 < x → 0 < a → incompleteGamma K x a g = K.igCore x a g) ∧
+    (igSentinel x a = true ↔ x ≠ 0 ∧ (x < 0 ∨ a ≤ 0)) := by
+  refine ⟨?_, ?_, ?_, igSentinel_iff x a⟩
+  · intro h; simp [incompleteGamma, h]
+  · intro h
+    obtain ⟨h0, h1⟩ := (igSentinel_iff x a).mp h
+    simp only [incompleteGamma, ScalarReal.eqb_iff, ScalarReal.zero_eq, h0, if_false,
+      Bool.or_eq_true, ScalarReal.ltb_iff, ScalarReal.leb_iff, h1, if_true, minusOne_real]
+  · intro hx ha
+    have h0 : x ≠ 0 := ne_of_gt hx
+    have h1 : ¬ (x < 0 ∨ a ≤ 0) := by push Not; exact ⟨le_of_lt hx, ha⟩
+    simp only [incompleteGamma, ScalarReal.eqb_iff, ScalarReal.zero_eq, h0, if_false,
+      Bool.or_eq_true, ScalarReal.ltb_iff, ScalarReal.leb_iff, h1]
+
+/-- under the kernel's contract (inside the domain its value is not the error value) the error
+value is returned *iff* the arguments are outside the domain -/
+theorem incompleteGamma_sentinel_iff (K : Kernels ℝ)
+    (hK : ∀ x a g, 0 < x → 0 < a → K.igCore x a g ≠ -1) (x a g : ℝ) :
+    incompleteGamma K x a g = -1 ↔ igSentinel x a = true := by
+  obtain ⟨h1, h2, h3, h4⟩ := guards_total_incompleteGamma K x a g
+  constructor
+  · intro h
+    by_contra hs
+    rw [h4] at hs
+    by_cases hx0 : x = 0
+    · rw [h1 hx0] at h; norm_num at h
+    · have hx : 0 < x := by
+        rcases lt_or_gt_of_ne hx0 with hn | hp
+        · exact absurd ⟨hx0, Or.inl hn⟩ hs
+        · exact hp
+      have ha : 0 < a := by
+        by_contra ha; exact hs ⟨hx0, Or.inr (not_lt.mp ha)⟩
+      rw [h3 hx ha] at h
+      exact hK x a g hx ha h
+  · exact h2
+
+/-- `pGamma(x, α, β)`: raises iff `α < 0 ∨ β < 0`; 1 at `α = 0`; otherwise the incomplete gamma
+ratio at `β x` (so the error value -1 for `β x < 0`) -/
+theorem guards_total_pGamma (K : Kernels ℝ) (x a b : ℝ) :
+    (pGamma K x a b = .exc ↔ pGammaRaises a b = true) ∧
+    (pGammaRaises a b = true ↔ a < 0 ∨ b < 0) ∧
+    (a = 0 → 0 ≤ b → pGamma K x a b = .val 1) ∧
+    (0 < a → 0 ≤ b → pGamma K x a b = .val (incompleteGamma K (b * x) a (K.lnGamma a))) := by
+  refine ⟨?_, pGammaRaises_iff a b, ?_, ?_⟩
+  · rw [pGammaRaises_iff]
+    unfold pGamma
+    by_cases ha : a < 0
+    · simp [ha]
+    · by_cases hb : b < 0
+      · simp [ha, hb]
+      · by_cases h0 : a = 0 <;> simp [ha, hb, h0]
+  · intro h0 hb
+    have : ¬ (b < 0) := not_lt.mpr hb
+    simp [pGamma, h0, this]
+  · intro ha hb
+    have h1 : ¬ (a < 0) := by linarith
+    have h2 : ¬ (b < 0) := not_lt.mpr hb
+    have h3 : a ≠ 0 := ne_of_gt ha
+    simp [pGamma, h1, h2, h3]
+
+/-- `pChisq(x, v)`: 0 for `x < 0` (whatever `v`); otherwise raises iff `v < 0` -/
+theorem guards_total_pChisq (K : Kernels ℝ) (x v : ℝ) :
+    (x < 0 → pChisq K x v = .val 0) ∧
+    (pChisq K x v = .exc ↔ pChisqRaises x v = true) ∧
+    (pChisqRaises x v = true ↔ 0 ≤ x ∧ v < 0) := by
+  refine ⟨?_, ?_, pChisqRaises_iff x v⟩
+  · intro h; simp [pChisq, h]
+  · rw [pChisqRaises_iff]
+    unfold pChisq
+    by_cases hx : x < 0
+    · have : ¬ (0 ≤ x) := not_le.mpr hx
+      simp [hx, this]
+    · have hx' : 0 ≤ x := not_lt.mp hx
+      simp only [ScalarReal.ltb_iff, ScalarReal.zero_eq, hx, if_false, hx', true_and]
+      rw [(guards_total_pGamma K x (v / two) half).1, pGammaRaises_iff]
+      simp only [two_real, half_real]
+      constructor
+      · rintro (h | h)
+        · linarith
+        · norm_num at h
+      · intro h; left; linarith
+
+/-- `qChisq(p, v)`: the error value -1 when `p < 0.000002 ∨ p > 0.999998 ∨ v ≤ 0`, the AS91 kernel
+otherwise -/
+theorem guards_total_qChisq (K : Kernels ℝ) (p v : ℝ) :
+    (qChisqSentinel p v = true → qChisq K p v = -1) ∧
+    (qChisqSentinel p v = false → qChisq K p v = K.qChisqCore p v) ∧
+    (qChisqSentinel p v = true ↔ p < chLo ∨ chHi < p ∨ v ≤ 0) := by
+  refine ⟨?_, ?_, qChisqSentinel_iff p v⟩
+  · intro h
+    have : (ltb p chLo || gtb p chHi || leb v zero) = true := h
+    simp only [qChisq, this, if_true, minusOne_real]
+  · intro h
+    have : (ltb p chLo || gtb p chHi || leb v zero) = false := h
+    simp only [qChisq, this, Bool.false_eq_true, if_false]
+
+/-- `qGamma(p, α, β)` (repaired code): outside the domain of `qChisq(p, 2α)` the error value -1
+itself; inside, `qChisq / (2β)` provided the kernel's value is non-negative (its contract); and
+then, for `β > 0`, -1 is returned *only* outside the domain. -/
+theorem guards_total_qGamma (K : Kernels ℝ) (p a b : ℝ) :
+    (qChisqSentinel p (two * a) = true → qGamma K p a b = -1) ∧
+    (qChisqSentinel p (two * a) = false → 0 ≤ K.qChisqCore p (two * a) →
+        qGamma K p a b = K.qChisqCore p (two * a) / (2 * b)) ∧
+    ((∀ p v, 0 ≤ K.qChisqCore p v) → 0 < b →
+        (qGamma K p a b = -1 ↔ qChisqSentinel p (two * a) = true)) ∧
+    (qChisqSentinel p (two * a) = true ↔ p < chLo ∨ chHi < p ∨ a ≤ 0) := by
+  have e : qGamma K p a b = if qChisq K p (two * a) < 0 then qChisq K p (two * a)
+      else qChisq K p (two * a) / (2 * b) := by simp [qGamma]
+  have hsen : qChisqSentinel p (two * a) = true → qGamma K p a b = -1 := by
+    intro h
+    rw [e, qChisq_of_sentinel K p _ h]; norm_num
+  have hdom : qChisqSentinel p (two * a) = false → 0 ≤ K.qChisqCore p (two * a) →
+        qGamma K p a b = K.qChisqCore p (two * a) / (2 * b) := by
+    intro h h0
+    have : ¬ (K.qChisqCore p (two * a) < 0) := not_lt.mpr h0
+    rw [e, qChisq_of_domain K p _ h, if_neg this]
+  refine ⟨hsen, hdom, ?_, ?_⟩
+  · intro hK hb
+    refine ⟨?_, hsen⟩
+    intro h
+    by_contra hs
+    have hs' : qChisqSentinel p (two * a) = false := by simpa using hs
+    rw [hdom hs' (hK _ _)] at h
+    have : 0 ≤ K.qChisqCore p (two * a) / (2 * b) := div_nonneg (hK _ _) (by linarith)
+    linarith
+  · rw [qChisqSentinel_iff]
+    simp only [two_real]
+    constructor
+    · rintro (h | h | h)
+      · exact Or.inl h
+      · exact Or.inr (Or.inl h)
+      · right; right; linarith
+    · rintro (h | h | h)
+      · exact Or.inl h
+      · exact Or.inr (Or.inl h)
+      · right; right; linarith
+
+/-- the snapshot's `qGamma` divided the error value by `2β`: for `p = 0, α = 1, β = 1/10` it
+returned -5, whatever the kernels -/
+theorem qGammaOld_rescales_sentinel (K : Kernels ℝ) : qGammaOld K 0 1 (1 / 10) = -5 := by
+  have h : qChisqSentinel (0 : ℝ) (two * 1) = true := by
+    rw [qChisqSentinel_iff]; left; exact chLo_pos
+  have e : qGammaOld K 0 1 (1 / 10) = qChisq K 0 (two * 1) / (2 * (1 / 10)) := by simp [qGammaOld]
+  rw [e, qChisq_of_sentinel K _ _ h]; norm_num
+
+/-- `incompleteBeta(x, α, β)` (= `pBeta`): raises iff `α ≤ 0 ∨ β ≤ 0 ∨ x < 0 ∨ x > 1`; exact end
+points; the kernel strictly inside -/
+theorem guards_total_incompleteBeta (K : Kernels ℝ) (x a b : ℝ) :
+    (incompleteBeta K x a b = .exc ↔ ibRaises x a b = true) ∧
+    (ibRaises x a b = true ↔ a ≤ 0 ∨ b ≤ 0 ∨ x < 0 ∨ 1 < x) ∧
+    (0 < a → 0 < b → incompleteBeta K 0 a b = .val 0 ∧ incompleteBeta K 1 a b = .val 1) ∧
+    (0 < a → 0 < b → 0 < x → x < 1 → incompleteBeta K x a b = .val (K.ibCore x a b)) ∧
+    pBeta K x a b = incompleteBeta K x a b := by
+  refine ⟨?_, ibRaises_iff x a b, ?_, ?_, rfl⟩
+  · rw [ibRaises_iff]
+    unfold incompleteBeta
+    by_cases h1 : a ≤ 0 ∨ b ≤ 0
+    · have : a ≤ 0 ∨ b ≤ 0 ∨ x < 0 ∨ 1 < x := by tauto
+      simp [h1, this]
+    · by_cases h2 : x < 0 ∨ 1 < x
+      · have : a ≤ 0 ∨ b ≤ 0 ∨ x < 0 ∨ 1 < x := by tauto
+        simp [h1, h2]
+      · have : ¬ (a ≤ 0 ∨ b ≤ 0 ∨ x < 0 ∨ 1 < x) := by tauto
+        simp only [this, iff_false]
+        simp only [Bool.or_eq_true, ScalarReal.leb_iff, ScalarReal.ltb_iff, ScalarReal.gtb_iff,
+          ScalarReal.zero_eq, ScalarReal.one_eq, h1, h2, if_false]
+        split
+        · simp
+        · split <;> simp
+  · intro ha hb
+    have h1 : ¬ (a ≤ 0 ∨ b ≤ 0) := by push Not; exact ⟨ha, hb⟩
+    constructor <;> simp [incompleteBeta, h1]
+  · intro ha hb hx0 hx1
+    have h1 : ¬ (a ≤ 0 ∨ b ≤ 0) := by push Not; exact ⟨ha, hb⟩
+    have h2 : ¬ (x < 0 ∨ 1 < x) := by push Not; exact ⟨le_of_lt hx0, le_of_lt hx1⟩
+    have h3 : x ≠ 0 := ne_of_gt hx0
+    have h4 : x ≠ 1 := ne_of_lt hx1
+    simp [incompleteBeta, h1, h2, h3, h4]
+
+/-- `qBeta(p, α, β)`: raises when `p ∉ [0,1]` or a shape is negative; returns `p` at `p ∈ {0,1}`
+(also for a zero shape: the check is `< 0`); the AS109 kernel otherwise — which, calling `pBeta`,
+raises for a zero shape.  Under that contract, for non-negative shapes and `0 < p < 1` an
+exception is raised iff a shape is zero. -/
+theorem guards_total_qBeta (K : Kernels ℝ) (p a b : ℝ) :
+    (qBetaRaises p a b = true → qBeta K p a b = .exc) ∧
+    (qBetaRaises p a b = true ↔ p < 0 ∨ 1 < p ∨ a < 0 ∨ b < 0) ∧
+    (0 ≤ a → 0 ≤ b → qBeta K 0 a b = .val 0 ∧ qBeta K 1 a b = .val 1) ∧
+    (0 ≤ a → 0 ≤ b → 0 < p → p < 1 → qBeta K p a b = K.qBetaCore p a b) := by
+  refine ⟨?_, qBetaRaises_iff p a b, ?_, ?_⟩
+  · intro h
+    rw [qBetaRaises_iff] at h
+    unfold qBeta
+    by_cases h1 : p < 0 ∨ 1 < p
+    · simp [h1]
+    · have h2 : a < 0 ∨ b < 0 := by tauto
+      simp [h1, h2]
+  · intro ha hb
+    have h2 : ¬ (a < 0 ∨ b < 0) := by push Not; exact ⟨ha, hb⟩
+    constructor <;> simp [qBeta, h2]
+  · intro ha hb h0 h1
+    have h1' : ¬ (p < 0 ∨ 1 < p) := by push Not; exact ⟨le_of_lt h0, le_of_lt h1⟩
+    have h2 : ¬ (a < 0 ∨ b < 0) := by push Not; exact ⟨ha, hb⟩
+    have h3 : p ≠ 0 := ne_of_gt h0
+    have h4 : p ≠ 1 := ne_of_lt h1
+    simp [qBeta, h1', h2, h3, h4]
 
 end Bpp.C08
